@@ -116,6 +116,12 @@ func Lib() *ty.Env {
 	// a slice of arrays of slices: what lies in the spare capacity of the outer slice are ARRAYS, which are copied into in place
 	add("Span", "", ty.Ar(2, ty.Sl(b("int"))), false)                       // 58
 	add("SPN", "", ty.St(f("S", ty.Sl(ty.N(58))), f("N", b("int"))), false) // 59
+	// Equal AND Hash() int32 with VALUE receivers (first field only, so both are coarser than the fields), and a
+	// holder that reaches it by value, through a pointer, a slice of pointers and a map of pointers: behind a
+	// pointer the generated code guards nil and then calls the pointee's methods (F117, F118)
+	uh := add("UH", "", ty.St(f("A", b("int")), f("B", b("string"))), false) // 60
+	e.Decls[uh].Methods = "Ev.Hv"
+	add("HU", "", ty.St(f("P", ty.P(ty.N(60))), f("V", ty.N(60)), f("L", ty.Sl(ty.P(ty.N(60)))), f("M", ty.M(b("string"), ty.P(ty.N(60))))), false) // 61
 	return e
 }
 
@@ -298,8 +304,8 @@ func (c *Corpus) Random(rng *rand.Rand, depth int) *ty.Ty {
 }
 
 // MethodSrc is the Go source of the methods a declaration declares (Decl.Methods lists them as
-// "Ep" / "Ev" = Equal with pointer / value parameter, "Cp" / "Cv" = Compare, "Hp" = Hash() int32 on a
-// pointer receiver). Every method looks at the first field (an int) only; pointer methods are nil-safe.
+// "Ep" / "Ev" = Equal with pointer / value parameter, "Cp" / "Cv" = Compare, "Hp" / "Hv" = Hash() int32 on a
+// pointer / value receiver). Every method looks at the first field (an int) only; pointer methods are nil-safe.
 func MethodSrc(d *ty.Decl) string {
 	n := d.Name
 	src := ""
@@ -334,6 +340,8 @@ func MethodSrc(d *ty.Decl) string {
 			} else {
 				src += fmt.Sprintf("func (this %[1]s) DeepCopy(that %[1]s) { copy(that, this) }\n\n", n)
 			}
+		case "Hv":
+			src += fmt.Sprintf("func (this %[1]s) Hash() int32 { return int32(this.A) }\n\n", n)
 		case "Hp":
 			src += fmt.Sprintf("func (this *%[1]s) Hash() int32 {\n\tif this == nil {\n\t\treturn 0\n\t}\n\treturn int32(this.A)\n}\n\n", n)
 		}
